@@ -877,13 +877,15 @@ func (root *Root) formReflectArgs(
 	// appropriate, coerced to the declared argument types as they are for
 	// the other resolver strategies. The method takes them in the order of
 	// the definition.
-	if len(field.Args) == 0 {
-		return
-	}
 	for _, a := range fd.args.list {
 		av := field.getArg(a.N)
-		if av == nil {
-			// A declared argument that was not given.
+		if av == nil || av.Value == nil {
+			// A declared argument that was not given or is null. The method
+			// is handed the zero value of the parameter unless the argument
+			// is required.
+			if _, ok := a.Type.(*NonNull); ok {
+				ea = append(ea, resWarn(field.line, field.col, "%s is required but missing", a.N))
+			}
 			args = append(args, reflect.Value{})
 			continue
 		}
@@ -926,7 +928,10 @@ func checkReflectArgs(method *reflect.Value, args []reflect.Value) error {
 	}
 	for i, a := range args {
 		if !a.IsValid() {
-			return fmt.Errorf("argument %d is missing or null", i)
+			// An optional argument that was not given or is null, a
+			// required one was reported when the arguments were formed.
+			args[i] = reflect.Zero(mt.In(i))
+			continue
 		}
 		if !a.Type().AssignableTo(mt.In(i)) {
 			// An Int is handed on as an int32 and a Float as a float32, a
